@@ -1,5 +1,5 @@
 (* C09 — Compiled meaning depends only on the token sequence, not on its spelling.  Statements only. *)
-From SV Require Import Base Regex IR Lit AttrPat Parser RespellCorpus RespellFacts UnescFacts StrContFacts.
+From SV Require Import Base Regex IR Lit AttrPat Parser RespellCorpus RespellFacts UnescFacts StrContFacts StrUnescFacts.
 
 (* FULL STATEMENT: forall AST a and spellings c c', compile (print c a) = compile (print c' a).
    Proved: (1) names and keywords are compared after ASCII lower-casing (for all tokens); (2) every escape form
@@ -56,3 +56,27 @@ Proof. exact spells_example. Qed.
 Theorem C09_line_continuations_finite : forallb (fun nl => forallb (cont_ok nl) CONTEXTS) NEWLINES = true.
 Proof. exact line_continuations. Qed.
 Print Assumptions C09_line_continuations_finite.
+
+(* UNBOUNDED, string mode: for EVERY string s, css_unescape(s, string=True) over the REGENERATED pattern RE_CSS_STR_ESC equals
+   the specification US (StrUnescFacts.US): hex escapes and character escapes as in identifiers, a backslash followed by a
+   newline unit (LF, FF, CR, CR LF) contributes nothing, a backslash is U+FFFD only at the very end of the value.
+   Consequences for every tail y: a line continuation at the head of a value vanishes; a literal character is copied and
+   the rest unescaped on its own - so a continuation right before the end of a value vanishes too (the defect repaired
+   by /repo 9d8dee2 makes `css_unescape_str_spec` unprovable: with `$` the backslash before a final LF is U+FFFD). *)
+Theorem C09_unescape_string_spec : forall s, css_unescape s true = US 0 s.
+Proof. exact css_unescape_str_spec. Qed.
+Print Assumptions C09_unescape_string_spec.
+
+Theorem C09_continuation_lf : forall y, css_unescape (92 :: 10 :: y)%N true = css_unescape y true.
+Proof. exact continuation_lf. Qed.
+Theorem C09_continuation_ff : forall y, css_unescape (92 :: 12 :: y)%N true = css_unescape y true.
+Proof. exact continuation_ff. Qed.
+Theorem C09_continuation_crlf : forall y, css_unescape (92 :: 13 :: 10 :: y)%N true = css_unescape y true.
+Proof. exact continuation_crlf. Qed.
+Theorem C09_continuation_cr : forall y, hd_error y <> Some 10%N -> css_unescape (92 :: 13 :: y)%N true = css_unescape y true.
+Proof. exact continuation_cr. Qed.
+Theorem C09_literal_step : forall c y, (c =? 92)%N = false -> css_unescape (c :: y) true = c :: css_unescape y true.
+Proof. exact literal_step. Qed.
+Theorem C09_continuation_at_end : forall c, (c =? 92)%N = false -> css_unescape [c; 92; 10]%N true = [c].
+Proof. exact continuation_at_end_lf. Qed.
+Print Assumptions C09_continuation_at_end.
